@@ -380,3 +380,99 @@ func rc7dInPlaceRemoval(w *World) {
 	}
 	w.floor("callers of internal.RemoveOption in package options", n, 1)
 }
+
+// RC7e (C21): a pseudo-option is taken off the uninterpreted list only once it has been applied.
+// In lenient / unlinked mode the error wrappers return nil, so `return interp.handleErrorf(…)`
+// is an ordinary successful exit that means "this option could not be interpreted — leave it".
+// The functions of package options that take options off the list (callers of
+// internal.RemoveOption) therefore must not have stored the shortened list into the options
+// message on any path that can still reach such an exit: otherwise the option is neither applied
+// nor kept ("keeps every option it cannot interpret verbatim as uninterpreted"). May-dataflow per
+// caller: fact `stored` is generated by an assignment to <msg>.UninterpretedOption; a return whose
+// result is a call of a lenience-fallible function with `stored` alive is a violation.
+func rc7eCommitAfterChecks(w *World) {
+	w.rule("RC7e")
+	op := w.pkg("options")
+	rem := w.fn("internal", "RemoveOption")
+	if op == nil || rem == nil {
+		return
+	}
+	info := op.TypesInfo
+	fallible := lenienceFallible(w, op)
+	nFuncs, nExits := 0, 0
+	for _, b := range allFuncBodies(op) {
+		if b.Lit != nil {
+			continue
+		}
+		uses := false
+		ast.Inspect(b.Body, func(x ast.Node) bool {
+			if c, ok := x.(*ast.CallExpr); ok {
+				if f := callee(info, c); f != nil && f == rem.Obj {
+					uses = true
+				}
+			}
+			return true
+		})
+		if !uses {
+			continue
+		}
+		nFuncs++
+		isStore := func(x ast.Node) bool {
+			as, ok := x.(*ast.AssignStmt)
+			if !ok {
+				return false
+			}
+			for _, l := range as.Lhs {
+				if s, ok := ast.Unparen(l).(*ast.SelectorExpr); ok && s.Sel.Name == "UninterpretedOption" {
+					return true
+				}
+			}
+			return false
+		}
+		lenientExit := func(x ast.Node) bool {
+			r, ok := x.(*ast.ReturnStmt)
+			if !ok {
+				return false
+			}
+			found := false
+			for _, res := range r.Results {
+				ast.Inspect(res, func(y ast.Node) bool {
+					if c, ok := y.(*ast.CallExpr); ok {
+						if f := callee(info, c); f != nil && fallible[f] {
+							found = true
+						}
+					}
+					return true
+				})
+			}
+			return found
+		}
+		g := buildCFG(info, b.Body)
+		d := &Dataflow{G: g, Must: false, Init: Facts{}}
+		d.Transfer = func(nd ast.Node, in Facts) Facts {
+			if isStore(nd) {
+				return in.with("stored")
+			}
+			return in
+		}
+		d.Run()
+		var bad []string
+		d.Walk(func(_ *cfg.Block, nd ast.Node, before Facts) {
+			if lenientExit(nd) {
+				nExits++
+				if before["stored"] {
+					bad = append(bad, w.pos(nd.Pos()))
+				}
+			}
+		})
+		key := "removal-stored-before-lenient-exit|" + b.Label
+		if len(bad) == 0 {
+			w.ok(key, b.Decl.Pos(), "no exit through a lenience-aware error wrapper is reachable after the shortened list has been stored into the options message")
+		} else {
+			sort.Strings(bad)
+			w.violation(key, b.Decl.Pos(), "the shortened uninterpreted-option list is stored into the options message before a check that can still fail (exit through a lenience-aware error wrapper at "+strings.Join(bad, ", ")+"): in lenient / unlinked mode that exit returns nil, so the rejected option is neither applied nor kept as uninterpreted")
+		}
+	}
+	w.floor("functions that take options off the uninterpreted list", nFuncs, 1)
+	w.floor("exits through a lenience-aware wrapper in those functions", nExits, 3)
+}
